@@ -9,7 +9,7 @@ use crate::reg;
 use crate::sdesc::SDesc;
 use crate::sim;
 use scale_info::{form::PortableForm, Field, PortableRegistry, TypeDef, TypeDefPrimitive};
-use scale_typegen_description::rust_value_from_seed;
+use scale_typegen_description::{rust_value, rust_value_from_seed};
 use serde_json::json;
 
 pub const META: PropMeta = PropMeta {
@@ -370,8 +370,20 @@ pub fn judge_registry(ctx: &mut Ctx, r: &PortableRegistry, d: &SDesc, seeds: u64
             ctx.count("skipped_conflated_family", 1);
             continue;
         }
-        for s in 0..seeds {
-            let seed = ctx.seed.wrapping_mul(977).wrapping_add(s * 31 + id as u64);
+        for s in 0..=seeds {
+            // the last round is the seedless convenience entry point `rust_value(id, types, settings)`
+            let seedless = s == seeds;
+            let seed = if seedless { u64::MAX } else { ctx.seed.wrapping_mul(977).wrapping_add(s * 31 + id as u64) };
+            let rust_value_from_seed = |id: u32, r: &PortableRegistry, st: &scale_typegen::TypeGeneratorSettings, seed: u64, _a: Option<()>, _b: Option<()>| {
+                if seed == u64::MAX {
+                    rust_value(id, r, st)
+                } else {
+                    rust_value_from_seed(id, r, st, seed, None, None)
+                }
+            };
+            if seedless {
+                ctx.count("seedless_entry_point_calls", 1);
+            }
             ctx.begin_case(&format!("c14 id {id} seed {seed}"));
             // bounded progress (restating "recursion yields an error rather than a crash"): the
             // transformer may be asked to resolve at most a small multiple of the oracle's unfolding
@@ -409,6 +421,28 @@ pub fn judge_registry(ctx: &mut Ctx, r: &PortableRegistry, d: &SDesc, seeds: u64
                 ctx.count("same_seed_compared", 1);
                 if again.to_string() != tokens.to_string() {
                     ctx.violation("C14:same-seed-different-example", format!("id {id} seed {seed}"), replay(id, seed));
+                }
+            }
+            // middlewares that change nothing (never intercept a type, return every path as it is)
+            // must give the very same example
+            if s == 0 && !seedless {
+                let with_mw = guard(|| {
+                    scale_typegen_description::rust_value_from_seed(
+                        id,
+                        r,
+                        &settings,
+                        seed,
+                        Some(Box::new(|_, _| None)),
+                        Some(Box::new(|p| p)),
+                    )
+                });
+                if let Ok(Ok(mw)) = with_mw {
+                    ctx.count("identity_middleware_compared", 1);
+                    if mw.to_string() != tokens.to_string() {
+                        ctx.violation("C14:identity-middleware-changes-example", format!("id {id} seed {seed}: `{}` vs `{}`", mw.to_string().chars().take(160).collect::<String>(), tokens.to_string().chars().take(160).collect::<String>()), replay(id, seed));
+                    }
+                } else {
+                    ctx.violation("C14:identity-middleware-changes-example", format!("id {id} seed {seed}: the call with identity middlewares fails while the plain call returns an example"), replay(id, seed));
                 }
             }
             let expr: syn::Expr = match syn::parse2(tokens.clone()) {
@@ -514,7 +548,7 @@ pub fn replay(ctx: &mut Ctx, v: &serde_json::Value) {
     let (gen, _) = generate_model(&r, &d);
     let Ok(gen) = gen else { return };
     let settings = d.build();
-    match guard(|| rust_value_from_seed(id, &r, &settings, seed, None, None)) {
+    match guard(|| if seed == u64::MAX { rust_value(id, &r, &settings) } else { rust_value_from_seed(id, &r, &settings, seed, None, None) }) {
         Err(p) => ctx.violation(format!("C14:panic:{}", p.signature()), p.msg.clone(), v.clone()),
         Ok(Err(_)) => {}
         Ok(Ok(tokens)) => match syn::parse2::<syn::Expr>(tokens) {
